@@ -315,6 +315,10 @@ def tracer_attribution_history(ctx: Ctx, repo: Repo, rule: str) -> None:
          "the resolved function is remembered under (file, line, name) or something as coarse: generated functions share all three",
          [{"co_filename": K("<string>"), "co_firstlineno": K(2), "co_name": K("__init__"), "co_qualname": K("Point.__init__")},
           {"co_filename": K("<string>"), "co_firstlineno": K(2), "co_name": K("__init__"), "co_qualname": K("Label.__init__"), "co_code": K(b"\x97\x00d\x01S\x00")}]),
+        ("generated code that is EQUAL: the __init__ of two dataclasses with the same fields (same pseudo-file `<string>`, same line, same name, same bytecode and constants - two code objects that compare equal and are not the same object)",
+         "the resolved function is remembered under a key that compares code objects by VALUE: equal code objects of two different functions share the entry",
+         [{"co_filename": K("<string>"), "co_firstlineno": K(2), "co_name": K("__init__"), "co_qualname": K("__create_fn__.<locals>.__init__"), "ident": K("code of Point.__init__")},
+          {"co_filename": K("<string>"), "co_firstlineno": K(2), "co_name": K("__init__"), "co_qualname": K("__create_fn__.<locals>.__init__"), "ident": K("code of Label.__init__")}]),
         ("the same function again (a third call, after the other one)", "the remembered function is not the one resolved for this code object",
          [{"co_filename": K("/src/app/a/mod.py")}, {"co_filename": K("/src/app/b/mod.py")}, {"co_filename": K("/src/app/a/mod.py")}]),
     ]
